@@ -1,24 +1,21 @@
-(* C03 (b) -- whole evaluations over cached domains do not depend on the history (rule-free queries, NoDup domains);
-   refuted for rule queries (selector memory) and duplicate domain elements. *)
+(* C03 (b) -- whole evaluations over cached domains do not depend on the history (rule-free queries, any domains);
+   refuted for rule queries (selector memory). *)
 From Coq Require Import List ZArith Bool Arith Lia.
 From Krrood Require Import Eql.DomainCacheSpec Eql.DomainCache Eql.DomainCacheProofs Eql.ReevalSpec Eql.Reeval.
 Import ListNotations.
 Open Scope Z_scope.
 
-Definition dgood (d : dstate) (w : list Z) : Prop := cache d ++ src d = w /\ NoDup w.
+(* [w]: what the variable's cache will eventually hold (the de-duplicated domain); no NoDup requirement any more *)
+Definition dgood (d : dstate) (w : list Z) : Prop := fold_left ins (src d) (cache d) = w.
 
 Lemma iter_full_good d w : dgood d w -> fst (iter_full d) = w /\ dgood (snd (iter_full d)) w.
-Proof.
-  intros [E N]. unfold iter_full; simpl. split; auto. split; auto. simpl.
-  rewrite app_nil_r. rewrite dedup_nodup_aux; auto. now rewrite E.
-Qed.
+Proof. intros E. unfold iter_full, dgood in *; simpl. auto. Qed.
 
-(* the link to the handle machine: a fresh handle run to exhaustion is [iter_full] *)
+(* the link to the handle machine: a fresh handle of the current iterator run to exhaustion is [iter_full] *)
 Lemma iter_full_exhaust d w : dgood d w ->
-  exhaust (S (S (length w))) d HNew [] = Some (iter_full d).
+  rexhaust (S (S (length w))) d (RLive 0 []) [] = Some (iter_full d).
 Proof.
-  intros [E N]. etransitivity; [apply (exhaust_fresh w N d E)|]. unfold iter_full.
-  rewrite dedup_nodup_aux by (now rewrite E). now rewrite E.
+  intros E. etransitivity; [apply (rexhaust_fresh w d E)|]. unfold iter_full. unfold dgood in E. now rewrite E.
 Qed.
 
 Lemma Forall2_nth_some {X Y} (P : X -> Y -> Prop) l W x d :
@@ -127,10 +124,10 @@ Section Good.
   Qed.
 End Good.
 
-Lemma good_cold W : Forall (@NoDup Z) W -> good W [] (cold W).
+(* the world a state stands for: every domain de-duplicated (first occurrences) *)
+Lemma good_cold W : good (map dedup W) [] (cold W).
 Proof.
-  intros H. split; auto. unfold cold; simpl. induction H; simpl; constructor; auto.
-  split; auto.
+  split; auto. unfold cold; simpl. induction W; simpl; constructor; auto. reflexivity.
 Qed.
 
 Theorem reeval_idempotent W A c0 q s : q_rule q = None -> good W c0 s ->
@@ -151,19 +148,19 @@ Lemma refuted_rule_reeval :
   iso_rows W_w A_w q_rule_w = [[0; 11]; [1; 12]; [1; 13]].
 Proof. split; vm_compute; reflexivity. Qed.
 
-(* duplicate domain element: twice on the evaluation that fills the cache, once afterwards *)
+(* duplicate domain element: once, on every evaluation (it was twice on the first one with the previous iterator) *)
 Definition q_plain_w : query := {| q_sel := [0%nat]; q_conds := [ACmpC 0 Cge 0]; q_rule := None |}.
-Lemma refuted_dup_reeval :
-  hist [(10, 5)] (cold [[10; 10]]) [q_plain_w; q_plain_w] = [[[10]; [10]]; [[10]]].
-Proof. vm_compute; reflexivity. Qed.
+Example dup_reeval_once :
+  hist [(10, 5)] (cold [[10; 10]]) [q_plain_w; q_plain_w] = [[[10]]; [[10]]] /\
+  iso_rows (map dedup [[10; 10]]) [(10, 5)] q_plain_w = [[10]].
+Proof. split; vm_compute; reflexivity. Qed.
 
 Example reeval_nonvacuous :
   let q := {| q_sel := [0%nat; 1%nat]; q_conds := [ACmpC 0 Cge 1; ACmpV 0 Clt 1]; q_rule := None |} in
   let W := [[10; 11; 12]; [20; 21]] in
   let A := [(10, 0); (11, 1); (12, 2); (20, 2); (21, 3)] in
-  Forall (@NoDup Z) W /\
+  good (map dedup W) [] (cold W) /\
   hist A (cold W) [q; q] = [[[11; 20]; [11; 21]; [12; 21]]; [[11; 20]; [11; 21]; [12; 21]]].
 Proof.
-  simpl. split; [|vm_compute; reflexivity].
-  repeat constructor; simpl; intuition discriminate.
+  simpl. split; [apply (good_cold [[10; 11; 12]; [20; 21]])|vm_compute; reflexivity].
 Qed.
